@@ -98,8 +98,16 @@ DefragAsBuilt(n, m) ==
                      ELSE c]]
     [] OTHER -> n
 
-\* root Err() after the call, given it was nil before
-DfErrAsBuilt(n, m) == LET one == DfOneAsBuilt(n, DfLimit(m)) IN IF one.err = "set" THEN "set" ELSE "none"
+\* root Err() after the call; pre = an error was recorded on the root before the call
+DfErrAsBuilt(n, m, pre) == LET one == DfOneAsBuilt(n, DfLimit(m)) IN
+                           IF one.err = "set" THEN "set" ELSE IF one.err = "keep" /\ pre THEN "set" ELSE "none"
+
+\* the property: Err() is nil afterwards - except that a Stack without nil elements is left untouched, its error included
+DfErrSpec(n, pre) == IF pre /\ \A i \in 1..Len(n.e) : ~DfIsNil(n.e[i]) THEN "set" ELSE "none"
+
+\* case argument: the scan limit, + 1000 when an error is recorded on the root (SetErr) before the call
+DfArgLim(a) == IF a >= 1000 THEN a - 1000 ELSE a
+DfArgPre(a) == a >= 1000
 
 DfResult(tree, err) == [shape |-> Shape(tree), err |-> err]
 =============================================================================
